@@ -570,7 +570,7 @@ def run_c11(tier, budget, rnd) -> StreamResult:
         # starting knowledge: the minimal information, or — every second case — the position reached after the environment
         # was stepped once or twice ("starting knowledge containing the minimal information": the search starts from what the
         # incomplete game knows NOW, which is more than the environment's initially-known list)
-        extra = sorted(rnd.sample(all_explorable, rnd.choice([1, 1, 2]))) if bi % 2 == 1 and len(all_explorable) > 3 else []
+        extra = sorted(rnd.sample(all_explorable, rnd.choice([1, 1, 2]))) if (bi % 2 == 1 or bi % 10 in (4, 8)) and len(all_explorable) > 3 else []
         minimal_only = minimal
         minimal = sorted(set(minimal) | set(extra))
         explorable = [c for c in all_explorable if c not in extra]
